@@ -463,9 +463,12 @@ PRELUDE_GSTATE = """From Verif Require Import Gen.GenReports.
 Open Scope Z_scope.
 
 (* The module-level state of the package that survives between assemblies:
-   try_compute.depth, Awaiting.awaiting_stack, handle_reports.handlers_stack (top of stack = head)
-   and the is_awaiting flag of every deferred object (identified by a number). *)
-Record gstate := mk_gstate { depth : Z; awaiting : list N; flags : N -> bool; handlers : list N }.
+   try_compute.depth, try_compute.not_ready_yet (the identities it holds: [nry]),
+   Awaiting.awaiting_stack, handle_reports.handlers_stack (top of stack = head)
+   and the is_awaiting flag of every deferred object (identified by a number).
+   not_ready_yet maps id(obj) to obj itself: the entry keeps the object alive, so an id cannot be
+   reused by another object while it is in the dict (checked shape: `[id(self)] = self`). *)
+Record gstate := mk_gstate { depth : Z; awaiting : list N; flags : N -> bool; handlers : list N; nry : list N }.
 
 Inductive step_result := SOk (s : gstate) | SRaise (e : exn) (s : gstate).
 Definition sbind (r : step_result) (f : gstate -> step_result) : step_result :=
@@ -473,32 +476,41 @@ Definition sbind (r : step_result) (f : gstate -> step_result) : step_result :=
 
 (* primitive effects, one per recognised python statement *)
 Definition add_depth (k : Z) (s : gstate) : step_result :=
-  SOk (mk_gstate (depth s + k) (awaiting s) (flags s) (handlers s)).
+  SOk (mk_gstate (depth s + k) (awaiting s) (flags s) (handlers s) (nry s)).
+(* if self.depth == 0: self.not_ready_yet = {} *)
+Definition reset_nry_at_depth0 (s : gstate) : step_result :=
+  SOk (mk_gstate (depth s) (awaiting s) (flags s) (handlers s) (if depth s =? 0 then [] else nry s)).
 Definition set_flag (d : N) (b : bool) (s : gstate) : step_result :=
-  SOk (mk_gstate (depth s) (awaiting s) (fun x => if N.eqb x d then b else flags s x) (handlers s)).
+  SOk (mk_gstate (depth s) (awaiting s) (fun x => if N.eqb x d then b else flags s x) (handlers s) (nry s)).
 (* if self.deferred.is_awaiting: raise DeferredCycle() *)
 Definition guard_not_awaiting (d : N) (s : gstate) : step_result :=
   if flags s d then SRaise EDeferredCycle s else SOk s.
 Definition push_awaiting (d : N) (s : gstate) : step_result :=
-  SOk (mk_gstate (depth s) (d :: awaiting s) (flags s) (handlers s)).
+  SOk (mk_gstate (depth s) (d :: awaiting s) (flags s) (handlers s) (nry s)).
 (* assert Awaiting.awaiting_stack.pop() is self.deferred : the pop happens, then the comparison *)
 Definition pop_assert_awaiting (d : N) (s : gstate) : step_result :=
   match awaiting s with
   | [] => SRaise EIndex s
-  | top :: rest => let s' := mk_gstate (depth s) rest (flags s) (handlers s) in
+  | top :: rest => let s' := mk_gstate (depth s) rest (flags s) (handlers s) (nry s) in
                    if N.eqb top d then SOk s' else SRaise EAssertion s'
   end.
 Definition push_handler (h : N) (s : gstate) : step_result :=
-  SOk (mk_gstate (depth s) (awaiting s) (flags s) (h :: handlers s)).
+  SOk (mk_gstate (depth s) (awaiting s) (flags s) (h :: handlers s) (nry s)).
 Definition pop_assert_handler (h : N) (s : gstate) : step_result :=
   match handlers s with
   | [] => SRaise EIndex s
-  | top :: rest => let s' := mk_gstate (depth s) (awaiting s) (flags s) rest in
+  | top :: rest => let s' := mk_gstate (depth s) (awaiting s) (flags s) rest (nry s) in
                    if N.eqb top h then SOk s' else SRaise EAssertion s'
   end.
 (* reads *)
 Definition not_ready_raises (s : gstate) : bool := depth s >? 0.          (* deferred.not_ready *)
 Definition top_handler (s : gstate) : option N := hd_error (handlers s).  (* emit_report: handlers_stack[-1] *)
+Definition nry_mem (d : N) (s : gstate) : bool := existsb (N.eqb d) (nry s).
+(* BaseDeferred.wait, before entering Awaiting:  if try_compute.depth > 0 and id(self) in try_compute.not_ready_yet: raise NotReadyError() *)
+Definition wait_blocked (d : N) (s : gstate) : bool := (depth s >? 0) && nry_mem d s.
+(* BaseDeferred.wait, `except NotReadyError:` inside the with:  if try_compute.depth > 0: try_compute.not_ready_yet[id(self)] = self *)
+Definition wait_record (d : N) (s : gstate) : gstate :=
+  if depth s >? 0 then mk_gstate (depth s) (awaiting s) (flags s) (handlers s) (if nry_mem d s then nry s else d :: nry s) else s.
 """
 
 
@@ -535,7 +547,7 @@ def gen_gstate():
 
     # ---- TryCompute
     tc = find_class(dtree, "TryCompute")
-    need([src(s) for s in tc.body if not isinstance(s, ast.FunctionDef)] == ["depth = 0"], "TryCompute: class-level attributes changed")
+    need([src(s) for s in tc.body if not isinstance(s, ast.FunctionDef)] == ["depth = 0", "not_ready_yet = {}"], "TryCompute: class-level attributes changed")
     need(sorted(n.name for n in tc.body if isinstance(n, ast.FunctionDef)) == ["__enter__", "__exit__"], "TryCompute: methods changed")
 
     def depth_eff(st):
@@ -545,7 +557,8 @@ def gen_gstate():
         return None
     en = find_def(tc, "__enter__")
     need([a.arg for a in en.args.args] == ["self"], "TryCompute.__enter__ signature")
-    effs = effects_of(en.body, [(depth_eff, None), ("return self", "")], "TryCompute.__enter__")
+    effs = effects_of(en.body, [(depth_eff, None), ("if self.depth == 0:\n    self.not_ready_yet = {}", "reset_nry_at_depth0"), ("return self", "")],
+                      "TryCompute.__enter__")
     out += f"\n(* TryCompute.__enter__ *)\nDefinition try_enter (s : gstate) : step_result :=\n  {compose(effs)}.\n"
     ex = find_def(tc, "__exit__")
     need([a.arg for a in ex.args.args] == ["self", "exc_type", "exc_value", "exc_tb"], "TryCompute.__exit__ signature")
@@ -582,7 +595,18 @@ def gen_gstate():
     bd = find_class(dtree, "BaseDeferred")
     init = find_def(bd, "__init__")
     need("self.is_awaiting = False" in [src(s) for s in init.body], "BaseDeferred.__init__ does not clear is_awaiting")
-    dump_eq(find_def(bd, "wait"), "def wait(self):\n    with Awaiting(self):\n        return self._wait()", "BaseDeferred.wait")
+    dump_eq(find_def(bd, "wait"), """
+def wait(self):
+    if try_compute.depth > 0 and id(self) in try_compute.not_ready_yet:
+        raise NotReadyError()
+    with Awaiting(self):
+        try:
+            return self._wait()
+        except NotReadyError:
+            if try_compute.depth > 0:
+                try_compute.not_ready_yet[id(self)] = self
+            raise
+""", "BaseDeferred.wait (prelude: wait_blocked / wait_record)")
 
     # ---- handle_reports (stack part)
     hr = find_class(rtree, "handle_reports")
@@ -620,7 +644,7 @@ def gen_gstate():
 # usage scan
 MUTATORS = {"append", "extend", "insert", "pop", "remove", "clear", "update", "setdefault", "add", "discard", "sort", "reverse",
             "popitem", "__setitem__", "__delitem__", "appendleft", "popleft"}
-STATE_ATTRS = {"depth", "awaiting_stack", "handlers_stack", "is_awaiting", "is_error_condition"}
+STATE_ATTRS = {"depth", "not_ready_yet", "awaiting_stack", "handlers_stack", "is_awaiting", "is_error_condition"}
 CM_CLASSES = {"TryCompute": "deferred", "Awaiting": "deferred", "handle_reports": "reports"}
 
 # writers of module-level objects that run at import time only (checked: every reference to them is at module level)
@@ -637,6 +661,8 @@ IMPORT_TIME_FUNCS = {("devices", "register_device"), ("formats", "file_format"),
 STATE_WRITERS = {
     ("deferred", "TryCompute.__enter__", "self.depth += 1"),
     ("deferred", "TryCompute.__exit__", "self.depth -= 1"),
+    ("deferred", "TryCompute.__enter__", "self.not_ready_yet = {}"),
+    ("deferred", "BaseDeferred.wait", "try_compute.not_ready_yet[id(self)] = self"),
     ("deferred", "Awaiting.__enter__", "Awaiting.awaiting_stack.append(self.deferred)"),
     ("deferred", "Awaiting.__exit__", "Awaiting.awaiting_stack.pop()"),
     ("reports", "handle_reports.__enter__", "self.handlers_stack.append(self)"),
@@ -802,8 +828,8 @@ def usage_scan():
                     r, pa = root_of(tg)
                     if is_module_root(r):
                         findings["writes"].append((m, sc.qual(), src(node) if not isinstance(node, (ast.For, ast.comprehension)) else src(tg), node.lineno))
-                    elif r == "self" and len(pa) == 1 and pa[0] in class_attrs and isinstance(node, ast.AugAssign):
-                        # `self.x += k` on a class-level attribute: the value lives on (and persists with) a shared instance
+                    elif r == "self" and len(pa) == 1 and pa[0] in class_attrs and (isinstance(node, ast.AugAssign) or sc.stack[0][1] in {c for _, c in class_attrs[pa[0]]}):
+                        # `self.x += k` / `self.x = v` on a class-level attribute: the value lives on (and persists with) a shared instance
                         findings["writes"].append((m, sc.qual(), src(node), node.lineno))
         # ---- accesses to the state attributes
         if isinstance(node, ast.Attribute) and node.attr in STATE_ATTRS:
@@ -855,6 +881,8 @@ def usage_scan():
     allowed_state = {
         ("deferred", "TryCompute.__enter__", "self.depth"), ("deferred", "TryCompute.__exit__", "self.depth"),
         ("deferred", "not_ready", "try_compute.depth"),
+        ("deferred", "TryCompute.__enter__", "self.not_ready_yet"),
+        ("deferred", "BaseDeferred.wait", "try_compute.depth"), ("deferred", "BaseDeferred.wait", "try_compute.not_ready_yet"),
         ("deferred", "Awaiting.__enter__", "Awaiting.awaiting_stack"), ("deferred", "Awaiting.__exit__", "Awaiting.awaiting_stack"),
         ("deferred", "Awaiting.__enter__", "self.deferred.is_awaiting"), ("deferred", "Awaiting.__exit__", "self.deferred.is_awaiting"),
         ("deferred", "BaseDeferred.__init__", "self.is_awaiting"),
@@ -884,7 +912,8 @@ def usage_scan():
                 continue
             if isinstance(parent, ast.Assign) and node in parent.targets and not q:
                 continue
-            need(isinstance(parent, ast.Attribute) and parent.attr == "depth" and q == "not_ready",
+            need(isinstance(parent, ast.Attribute) and ((parent.attr == "depth" and q in ("not_ready", "BaseDeferred.wait"))
+                                                         or (parent.attr == "not_ready_yet" and q == "BaseDeferred.wait")),
                  f"usage scan: {where}: try_compute is used other than as a with item ({q})")
             continue
         if nm == "TryCompute":
@@ -930,7 +959,20 @@ def usage_scan():
             for n in ast.walk(fn):
                 if isinstance(n, ast.Attribute) and n.attr == "name" and is_name(n.value, "self") and isinstance(n.ctx, ast.Load):
                     need(fn.name == "__repr__", f"usage scan: deferred.py:{n.lineno}: the name of a deferred object is read in {cls.name}.{fn.name}")
-    return [f"run-time writers of module-level objects: exactly {len(STATE_WRITERS)} (the three context managers and Deferred.__init__'s name counter);",
+    # 5. inventory of per-Compiler state: instance attributes set in Compiler.__init__ (a new Compiler is made per assembly);
+    #    the class itself has no class-level data attribute
+    ccls = [n for n in mods["compiler"].body if isinstance(n, ast.ClassDef) and n.name == "Compiler"]
+    need(len(ccls) == 1, "usage scan: class Compiler not found")
+    need(not [x for x in ccls[0].body if isinstance(x, (ast.Assign, ast.AnnAssign, ast.AugAssign))], "usage scan: class Compiler has class-level data attributes (shared between assemblies)")
+    cinit = [n for n in ccls[0].body if isinstance(n, ast.FunctionDef) and n.name == "__init__"][0]
+    per_compiler = [src(t)[5:] for st in cinit.body if isinstance(st, ast.Assign) for t in st.targets if src(t).startswith("self.")]
+    for m, t in mods.items():
+        for n in ast.walk(t):
+            if isinstance(n, ast.Call) and (src(n.func) in ("Compiler", "compiler.Compiler")):
+                par = None
+                need(m == "_cli", f"usage scan: {m}.py:{n.lineno}: a Compiler is constructed outside main_cli")
+    return [f"run-time writers of module-level objects: exactly {len(STATE_WRITERS)} (the three context managers, BaseDeferred.wait's not_ready_yet entry, Deferred.__init__'s name counter);",
+            f"per-Compiler state (instance attributes set in Compiler.__init__, one Compiler per run of main_cli, no class-level data): {', '.join(per_compiler)};",
             "Deferred.next_instance_id feeds only the default name of a deferred object; deferred.py reads names only in __repr__;",
             f"import-time registrars {sorted(f for _, f in IMPORT_TIME_FUNCS)} referenced {len(refs_ok)} times, always at module level;",
             f"state attributes {sorted(STATE_ATTRS)} accessed at {len(findings['state'])} places, all inside the owning classes, not_ready, emit_report"
